@@ -914,7 +914,9 @@ package client
 //@ extern client.SendEdgePoint(nc, nodeID, parentID, point, ack)
 //@   modifies state(nc)
 //@ extern client.SubjectNodePoints(nodeID)
+//@ spec func isTomb(n data.NodeEdge) bool
 //@ extern data.(NodeEdge).IsTombstone(n)
+//@   ensures res0 == isTomb(n)
 //@ extern errors.New(text)
 //@   ensures result != nil
 // sendNodesRemote / sendNodesLocal: the transfer of a subtree that exists on one side only
@@ -967,6 +969,8 @@ package client
 //@   local nodeLocal data.NodeEdge#1
 //@   local nodeUps []data.NodeEdge#2
 //@   local nodeUp data.NodeEdge#2
+//@   local nodeDeleted bool#1
+//@   local pTS data.Point#1
 //@   local p data.Point#2,3,4,7
 //@   local upstreamProcessed map[int]bool#1
 //@   local found bool#4,6,8
@@ -1003,6 +1007,8 @@ package client
 //@   assert [C02] newer-upstream-edge-points-come-down: nodeLocal.ID != up.rootLocal.ID ==> (forall a int, j int :: 0 <= a && a < len(nodeLocal.EdgePoints) && 0 <= j && j < len(nodeUp.EdgePoints) && pm(nodeLocal.EdgePoints[a], nodeUp.EdgePoints[j]) && newer(nodeUp.EdgePoints[j], nodeLocal.EdgePoints[a]) ==> eDownSent(verifG2, j)) at "GetNodes(up.ncLocal, nodeLocal.ID, \"all\", \"\", false)"
 //@   assert [C02] upstream-only-edge-points-come-down: nodeLocal.ID != up.rootLocal.ID ==> (forall j int :: 0 <= j && j < len(nodeUp.EdgePoints) && (forall a int :: 0 <= a && a < len(nodeLocal.EdgePoints) ==> !pm(nodeLocal.EdgePoints[a], nodeUp.EdgePoints[j])) ==> eDownSent(verifG2, j)) at "GetNodes(up.ncLocal, nodeLocal.ID, \"all\", \"\", false)"
 //@   assert [C02] the-root-edge-is-not-synced: nodeLocal.ID == up.rootLocal.ID ==> (forall k int :: !eUpSent(verifG2, k) && !eDownSent(verifG2, k)) at "GetNodes(up.ncLocal, nodeLocal.ID, \"all\", \"\", false)"
+//@   assert [C02] a-node-is-transferred-up-only-if-upstream-has-no-copy: len(nodeUps) == 0 at "up.sendNodesRemote(nodeLocal)"
+//@   assert [C02] undelete-upstream-only-if-every-upstream-copy-is-deleted: len(nodeUps) > 0 && (forall k int :: 0 <= k && k < len(nodeUps) ==> isTomb(nodeUps[k])) && nodeUp == nodeUps[0] && pTS.Type == "tombstone" && pTS.Value == 0.0 at "SendEdgePoint(up.ncRemote, nodeUp.ID, nodeUp.Parent, pTS, true)"
 //@   assert [C02] recursion-only-into-a-child-both-sides-have-with-different-hashes: child.ID == upChild.ID && child.Hash != upChild.Hash && child == children[rangeindex10] && upChild == upChildren[rangeindex11] at "up.syncNode(nodeLocal.ID, child.ID)"
 //@   assert [C02] a-child-goes-up-only-if-upstream-has-none-with-its-id: child == children[rangeindex10] && (forall j int :: 0 <= j && j < len(upChildren) ==> upChildren[j].ID != child.ID) at "up.sendNodesRemote(child)"
 //@   assert [C02] a-child-comes-down-only-if-no-local-child-has-its-id: upChild == upChildren[rangeindex12] && (forall a int :: 0 <= a && a < len(children) ==> children[a].ID != upChild.ID) at "up.sendNodesLocal(upChild)"
@@ -1011,6 +1017,7 @@ package client
 //@   assert [C02] upstream-only-node-points-come-down: forall j int :: 0 <= j && j < len(nodeUp.Points) && (forall a int :: 0 <= a && a < len(nodeLocal.Points) ==> !pm(nodeLocal.Points[a], nodeUp.Points[j])) ==> downSent(verifG, j) at "GetNodes(up.ncLocal, nodeLocal.ID, \"all\", \"\", false)"
 //@   loop 1:
 //@     invariant -1 <= rangeindex && rangeindex < len(nodeUps) || rangeindex == -1
+//@     invariant [C02] nodeDeleted && len(nodeUps) > 0 && (forall k int :: 0 <= k && k <= rangeindex ==> isTomb(nodeUps[k]))
 //@     decreases len(nodeUps) - rangeindex
 //@   loop 2:
 //@     invariant -1 <= rangeindex && rangeindex < len(nodeUp.EdgePoints) || rangeindex == -1
